@@ -25,8 +25,10 @@ def run(ctx):
     ctx.rule('R15.1', 'FilterStack.run: every pipeline step and the yield lie inside one try whose RecursionError handler raises SQLParseError', floor=3)
     ctx.rule('R15.2', 'recursion containment: no call in an entry point, other than consuming stack.run(...), reaches a recursive function', floor=8)
     ctx.rule('R15.3', 'the str(stmt) exception in split is justified: no grouping and no group-building filter on that stack', floor=1)
+    ctx.rule('R15.4', 'the package never changes interpreter-wide limits (recursion limit, thread stack size, resource limits)', floor=1)
     repo = ctx.repo
     cg = get_cg(ctx)
+    check_limits(ctx, ctx.repo)
     m = ctx.shared('runmodel', lambda: RK.RunModel(ctx))
     f = m.f
     loc = f'{f.mod.relpath}:{f.node.lineno}'
@@ -148,3 +150,41 @@ def check_split_exception(ctx, ep, call, hit):
            'str(stmt) in split runs on flat statements only (no grouping enabled, no group-building filter on the stack)', ok,
            f'stack uses {uses}; group-building effects in installable filters: {builders[:2]}: TokenList.__str__ -> flatten recurses '
            'per nesting level outside the translating try')
+
+
+LIMIT_SETTERS = {'setrecursionlimit', 'stack_size', 'setrlimit', 'setswitchinterval', 'set_int_max_str_digits'}
+
+
+def limit_sites(repo):
+    out = []
+    for mod in repo.modules.values():
+        for n in ast.walk(mod.tree):
+            if isinstance(n, ast.Attribute) and n.attr in LIMIT_SETTERS:
+                out.append((mod, n, src(n)))
+            elif isinstance(n, ast.Name) and n.id in LIMIT_SETTERS:
+                out.append((mod, n, n.id))
+            elif isinstance(n, ast.ImportFrom) and any(a.name in LIMIT_SETTERS for a in n.names):
+                out.append((mod, n, src(n)))
+    return out
+
+
+def check_limits(ctx, repo):
+    """Grouping and every later walk of the tree (flatten, str, the filters, user code) run under the same recursion
+    limit, and grouping needs the deeper stack: that is why a tree parse() returns can always be serialised and why the
+    RecursionError -> SQLParseError translation in run is the only exit for input that is too deep.  Raising the limit
+    while grouping returns trees that str()/flatten() cannot walk (RecursionError in user code, outside run's handler),
+    and the limit is process-wide state other threads see."""
+    from ..model import Repo
+    sites = limit_sites(repo)
+    ctx.ob('R15.4', 'no-limit-change', 'sqlparse/', f'no use of {sorted(LIMIT_SETTERS)} in {len(repo.modules)} modules', not sites,
+           '; '.join(f'{m.relpath}:{n.lineno} `{t}`' for m, n, t in sites[:4]) + ': the stack budget of grouping differs from the budget of the tree '
+           'walks that follow (str(stmt), flatten, filters), so parse() can return a statement that cannot be serialised; the limit is also '
+           'shared with every other thread')
+    # positive control
+    rel = 'sqlparse/engine/grouping.py'
+    txt = repo.files[rel]
+    bad = txt.replace('def group(stmt):\n', 'def group(stmt):\n    import sys\n    sys.setrecursionlimit(sys.getrecursionlimit() + 500)\n', 1)
+    ctx.need(bad != txt, 'positive control for R15.4 could not be built (grouping.group not found)')
+    r2 = Repo(repo.root, overlay=dict(repo.overlay, **{rel: bad}))
+    ctx.need(bool(limit_sites(r2)), 'positive control: setrecursionlimit in grouping.group was not found by R15.4')
+    ctx.note('positive control: a setrecursionlimit call planted in grouping.group is found by R15.4')
